@@ -28,7 +28,11 @@ pub fn draw_job(rng: &mut Rng, c: &Corpus) -> Job {
         // prefixes, several files of identical layout, programs on <std>),
         // as they are and as token-level mutants
         let mut disk = crate::disk::Disk::new(corpus::PROJ);
-        let root = match rng.below(4) {
+        let root = match rng.below(6) {
+            4 | 5 => {
+                disk.add_file("banks.asm", crate::c10::bank_program(rng));
+                "banks.asm".to_string()
+            }
             0 => {
                 disk.add_file("prog.asm", crate::c10::symbol_program(rng));
                 "prog.asm".to_string()
@@ -109,7 +113,50 @@ pub fn draw_job(rng: &mut Rng, c: &Corpus) -> Job {
         if spec.roots.len() == 1 && rng.chance(3, 4) {
             spec.roots = vec![root.clone()];
         }
-        let mut j = Job::from_spec(&format!("cmdline:{}/{}", img.label, root), job.disk.clone(), spec);
+        let mut disk = job.disk.clone();
+        if rng.chance(1, 10) {
+            // directed shape: an output group that must derive its file name
+            // stands before the group naming the input, after a group that
+            // writes or prints; the input's extension may be the derived one
+            let f1 = rng.pick(&["hexstr", "binary", "annotated", "mesen-mlb", "symbols", "binstr"]).to_string();
+            let g0 = crate::job::Group { format: Some(rng.pick(&["binary", "hexstr", "intelhex"]).to_string()), out: if rng.chance(1, 2) { Some("first.out".to_string()) } else { None }, print: false };
+            let mut g0 = g0;
+            if g0.out.is_none() {
+                g0.print = true;
+            }
+            let g1 = crate::job::Group { format: Some(f1.clone()), out: None, print: false };
+            let g2 = crate::job::Group { format: if rng.chance(1, 2) { Some("binary".to_string()) } else { None }, out: Some("last.out".to_string()), print: false };
+            spec.groups = vec![g0, g1, g2];
+            spec.root_group = rng.range(1, 2);
+            spec.roots = vec![root.clone()];
+            spec.help = false;
+            spec.version = false;
+            spec.quiet = true;
+            spec.debug_iters = false;
+            if rng.chance(1, 2) {
+                let ext = match f1.as_str() {
+                    "binary" => "bin",
+                    "mesen-mlb" => "mlb",
+                    _ => "txt",
+                };
+                if let Some(crate::disk::Node::File(t)) = disk.nodes.get(&format!("{}/{}", corpus::PROJ, root)).cloned() {
+                    let renamed = format!("{}.{}", root.trim_end_matches(".asm"), ext);
+                    disk.add_file(&renamed, t);
+                    spec.roots = vec![renamed];
+                }
+            }
+        } else if spec.roots.len() == 1 && rng.chance(1, 8) {
+            // an input whose extension is the one an output format derives
+            // (`prog.txt` with a text format, `prog.bin` with binary)
+            let old = spec.roots[0].clone();
+            if let Some(crate::disk::Node::File(t)) = disk.nodes.get(&format!("{}/{}", corpus::PROJ, old)).cloned() {
+                let stem = old.trim_end_matches(".asm").to_string();
+                let renamed = format!("{}.{}", stem, rng.pick(&["txt", "bin", "mlb", "txt"]));
+                disk.add_file(&renamed, t);
+                spec.roots = vec![renamed];
+            }
+        }
+        let mut j = Job::from_spec(&format!("cmdline:{}/{}", img.label, root), disk, spec);
         j.disk.mkdir_p(&format!("{}/sub", corpus::PROJ));
         j
     }
@@ -209,6 +256,13 @@ pub fn check(job: &Job, faults: &[Fault], rec: &Record, content_check: bool) -> 
         Outcome::Err => {
             if errs == 0 {
                 v.push(Violation::new("I2-failure-without-diagnostic", format!("exit Err but no top-level error diagnostic; stderr={:?} | {}", String::from_utf8_lossy(&rec.stderr), ctx)));
+            }
+            if let Some(spec) = &job.spec {
+                // with -q nothing but a `-p` group's formatted output goes to
+                // stdout: on failure no output may have been printed either
+                if spec.quiet && !spec.debug_iters && !spec.help && !spec.version && !rec.stdout.is_empty() && !failed_write {
+                    v.push(Violation::new("I2-failure-printed-output", format!("exit Err ({}) but {} byte(s) of output were printed on stdout | {}", first_error(&rec.stderr), rec.stdout.len(), ctx)));
+                }
             }
             if !failed_write && (!rec.writes.is_empty() || !rec.new_files.is_empty()) {
                 v.push(Violation::new(
